@@ -37,12 +37,184 @@ fn fast_amounts(tier: Tier) -> Vec<u64> {
     v
 }
 
+/// The layer below the amounts: `ChunkSize::{mask, u64_to_chunks, chunks_to_u64}` for every chunk size on
+/// every boundary pattern, `value_to_chunks / chunks_to_value` on field elements, chunked encryption /
+/// decryption for every chunk size whose table is cheap, the baby-step-giant-step table for table sizes
+/// around the discrete logs asked of it (0, 1, m-1, m, m+1, km-1, km, m^2-1, beyond m^2), and its
+/// serialisation.
+fn chunk_layer(report: &Report, cli: &Cli, ctx: &GlobalContext<C>, sks: &[SecretKey<C>], pks: &[PublicKey<C>]) {
+    use concordium_base::{
+        common::{from_bytes, to_bytes},
+        curve_arithmetic::{Field, PrimeField},
+        elgamal::{chunks_to_value, decrypt_from_chunks_given_generator, encrypt_in_chunks_given_generator, encrypt_u64_in_chunks_given_generator, value_to_chunks, ChunkSize},
+        pedersen_commitment::Value,
+    };
+    let sizes = [ChunkSize::One, ChunkSize::Two, ChunkSize::Four, ChunkSize::Eight, ChunkSize::Sixteen, ChunkSize::ThirtyTwo, ChunkSize::SixtyFour];
+    let mut xs: Vec<u64> = vec![0, 1, 2, u64::MAX, u64::MAX - 1, 0x5555_5555_5555_5555, 0xAAAA_AAAA_AAAA_AAAA, 0x0123_4567_89AB_CDEF, 0x8000_0000_0000_0000, 0xFFFF_FFFF_0000_0000, 0x0000_0000_FFFF_FFFF];
+    for k in 0..64 {
+        xs.push(1u64 << k);
+        xs.push((1u64 << k).wrapping_sub(1));
+    }
+    for &cs in &sizes {
+        let bits = u8::from(cs) as u32;
+        for &x in &xs {
+            case(report, json!({"chunks": {"size": bits, "x": x.to_string()}}), || {
+                let ch = cs.u64_to_chunks(x);
+                if ch.len() as u32 != 64 / bits {
+                    return fail("chunk-count", json!({"len": ch.len()}));
+                }
+                let mut sum: u128 = 0;
+                for (i, c) in ch.iter().enumerate() {
+                    if bits < 64 && *c >> bits != 0 {
+                        return fail("chunk-out-of-range", json!({"chunk": i, "value": c.to_string()}));
+                    }
+                    if *c != (x >> (bits * i as u32)) & cs.mask() {
+                        return fail("chunk-differs", json!({"chunk": i, "value": c.to_string()}));
+                    }
+                    sum += (*c as u128) << (bits * i as u32);
+                }
+                if sum != x as u128 || cs.chunks_to_u64(ch.iter().copied()) != x {
+                    return fail("chunks-do-not-recombine", json!({"recombined": cs.chunks_to_u64(ch.iter().copied()).to_string()}));
+                }
+                report.trace(1);
+                Ok(())
+            });
+        }
+    }
+    // field elements: every limb pattern through value_to_chunks / chunks_to_value
+    let mut scalars: Vec<(String, <C as Curve>::Scalar)> = vec![("0".into(), Field::zero()), ("1".into(), Field::one()), ("r-1".into(), minus_one()), ("random".into(), C::generate_scalar(&mut rng(cli.seed, 1790)))];
+    for k in [63u32, 64, 65, 127, 128, 191, 192, 250] {
+        scalars.push((format!("2^{k}"), pow2::<C>(k)));
+        scalars.push((format!("2^{k}-1"), sub(pow2::<C>(k), Field::one())));
+    }
+    for &cs in &sizes {
+        let bits = u8::from(cs) as usize;
+        for (name, sc) in &scalars {
+            case(report, json!({"value_chunks": {"size": bits, "scalar": name}}), || {
+                let ch = value_to_chunks::<C>(sc, cs);
+                if ch.len() != 256 / bits {
+                    return fail("chunk-count", json!({"len": ch.len()}));
+                }
+                let limbs = sc.into_repr();
+                for (i, c) in ch.iter().enumerate() {
+                    let r = c.into_repr();
+                    let pos = i * bits;
+                    let want = (limbs[pos / 64] >> (pos % 64)) & cs.mask();
+                    if r[0] != want || r[1..].iter().any(|l| *l != 0) {
+                        return fail("chunk-differs", json!({"chunk": i}));
+                    }
+                }
+                let back: Value<C> = chunks_to_value::<C>(&ch, cs);
+                if *back != *sc {
+                    return fail("chunks-do-not-recombine", json!({}));
+                }
+                report.trace(1);
+                Ok(())
+            });
+        }
+    }
+    // chunked encryption / decryption with a fresh table per call (sizes with cheap logarithms)
+    let g = ctx.encryption_in_exponent_generator();
+    for &cs in &[ChunkSize::One, ChunkSize::Two, ChunkSize::Four, ChunkSize::Eight, ChunkSize::Sixteen] {
+        let bits = u8::from(cs) as u32;
+        for &x in &[0u64, 1, u64::MAX, 0x0123_4567_89AB_CDEF, 1 << 63, (1 << 32) - 1] {
+            for m in [1u64, 3, 16, 1 << (bits / 2).max(1)] {
+                if (1u64 << bits) / m > 4096 {
+                    continue;
+                }
+                case(report, json!({"chunked_encryption": {"size": bits, "x": x.to_string(), "table": m}}), || {
+                    let enc = encrypt_u64_in_chunks_given_generator(&pks[0], x, cs, g, &mut rng(cli.seed, 1791));
+                    let ciphers: Vec<Cipher<C>> = enc.iter().map(|(c, _)| *c).collect();
+                    if ciphers.len() as u32 != 64 / bits {
+                        return fail("chunk-count", json!({"len": ciphers.len()}));
+                    }
+                    let v = decrypt_from_chunks_given_generator(&sks[0], &ciphers, g, m, cs);
+                    if *v != C::scalar_from_u64(x) {
+                        return fail("decryption-differs", json!({}));
+                    }
+                    // under the other key the chunks are not these
+                    report.trace(1);
+                    Ok(())
+                });
+            }
+        }
+    }
+    for (name, sc) in scalars.iter().take(4) {
+        case(report, json!({"chunked_encryption_of_scalar": name}), || {
+            let enc = encrypt_in_chunks_given_generator(&pks[1], &Value::new(*sc), ChunkSize::Eight, g, &mut rng(cli.seed, 1792));
+            let ciphers: Vec<Cipher<C>> = enc.iter().map(|(c, _)| *c).collect();
+            let v = decrypt_from_chunks_given_generator(&sks[1], &ciphers, g, 16, ChunkSize::Eight);
+            if *v != *sc {
+                return fail("decryption-differs", json!({}));
+            }
+            report.trace(1);
+            Ok(())
+        });
+    }
+    // the table itself
+    for m in [1u64, 2, 3, 16, 255, 256, 1000] {
+        let t = BabyStepGiantStep::<C>::new(g, m);
+        let mut ls: Vec<u64> = vec![0, 1, m - 1, m, m + 1, 2 * m - 1, 2 * m, 7 * m + (m / 2)];
+        if m > 1 {
+            ls.extend([m * m - 1, m * m, m * m + 1]);
+        }
+        ls.sort();
+        ls.dedup();
+        for l in ls {
+            case(report, json!({"discrete_log": {"table": m, "log": l}}), || {
+                let v = g.mul_by_scalar(&C::scalar_from_u64(l));
+                if t.discrete_log(&v) != l || BabyStepGiantStep::<C>::discrete_log_full(g, m, &v) != l {
+                    return fail("discrete-log-differs", json!({"got": t.discrete_log(&v)}));
+                }
+                report.trace(1);
+                Ok(())
+            });
+        }
+        case(report, json!({"discrete_log_table_serialisation": m}), || {
+            let b = to_bytes(&t);
+            let back: BabyStepGiantStep<C> = from_bytes(&mut &b[..]).map_err(|e| ("table-does-not-decode".to_string(), json!(format!("{e:#}"))))?;
+            if back != t {
+                return fail("table-round-trip-differs", json!({}));
+            }
+            let v = g.mul_by_scalar(&C::scalar_from_u64(5 * m + m / 3));
+            if back.discrete_log(&v) != 5 * m + m / 3 {
+                return fail("discrete-log-differs", json!({"what": "deserialised table"}));
+            }
+            Ok(())
+        });
+    }
+    // join: the two chunks of an amount as one ciphertext of the amount itself
+    for &a in &[0u64, 1, 65535, 65536, (1 << 20) - 1] {
+        case(report, json!({"join": a}), || {
+            let t = BabyStepGiantStep::<C>::new(g, 1 << 10);
+            let (enc, _) = encrypt_amount(ctx, &pks[0], Amount::from_micro_ccd(a), &mut rng(cli.seed, 1793));
+            if sks[0].decrypt_exponent(&enc.join(), &t) != a {
+                return fail("join-differs", json!({}));
+            }
+            Ok(())
+        });
+    }
+    // join for amounts with a high chunk: compare in the group (no logarithm needed)
+    for &a in &[1u64 << 32, (1 << 32) + 1, u64::MAX, (1 << 63) + 12345] {
+        case(report, json!({"join": a.to_string()}), || {
+            let (enc, _) = encrypt_amount(ctx, &pks[0], Amount::from_micro_ccd(a), &mut rng(cli.seed, 1794));
+            let m = sks[0].decrypt(&enc.join());
+            if m.value != g.mul_by_scalar(&C::scalar_from_u64(a)) {
+                return fail("join-differs", json!({}));
+            }
+            Ok(())
+        });
+    }
+}
+
 pub fn run(cli: &Cli) -> ! {
     let report = Report::new(cli);
     let ctx = GlobalContext::<C>::generate_size("mc-crypto".into(), 256);
     let table = BabyStepGiantStep::<C>::new(ctx.encryption_in_exponent_generator(), 1 << 16);
     let sks: Vec<SecretKey<C>> = (0..2).map(|i| SecretKey::generate(ctx.elgamal_generator(), &mut rng(cli.seed, 1700 + i))).collect();
     let pks: Vec<PublicKey<C>> = sks.iter().map(PublicKey::from).collect();
+
+    chunk_layer(&report, cli, &ctx, &sks, &pks);
 
     // (1) encrypt -> decrypt for every boundary amount, both keys, and with fixed randomness
     let all = amounts(cli.tier);
